@@ -69,6 +69,69 @@ fn ops(r: usize, c: usize) -> Vec<Op> {
     v
 }
 
+/// Restricted menu for long shapes (10x1, 1x10, 9x2, 2x9): bulk operations with lists longer than
+/// any small inline capacity, and single-position edits at the ends.
+fn ops_long(r: usize, c: usize) -> Vec<Op> {
+    let long = r.max(c);
+    let lists: Vec<Vec<usize>> = vec![
+        vec![],
+        (0..long).collect(),
+        (0..long).rev().collect(),
+        (0..long - 1).collect(),
+        (1..long).rev().collect(),
+        (0..long).filter(|x| x % 2 == 0).collect(),
+        vec![long - 1, 0, long - 1],
+    ];
+    let ends = [0, long - 2, long - 1];
+    let mut v = Vec::new();
+    if r >= c {
+        for j in 0..c {
+            v.push(Op::ClearCol(j));
+            for l in &lists {
+                v.push(Op::InsertCol(j, l.clone()));
+                v.push(Op::SetCol(j, l.clone()));
+            }
+        }
+        for &i in &ends {
+            v.push(Op::ClearRow(i));
+            v.push(Op::SetRow(i, vec![c - 1]));
+            v.push(Op::InsertRow(i, (0..c).collect()));
+            for j in 0..c {
+                v.push(Op::Insert(i, j));
+                v.push(Op::Remove(i, j));
+                v.push(Op::Toggle(i, j));
+            }
+        }
+    } else {
+        for i in 0..r {
+            v.push(Op::ClearRow(i));
+            for l in &lists {
+                v.push(Op::InsertRow(i, l.clone()));
+                v.push(Op::SetRow(i, l.clone()));
+            }
+        }
+        for &j in &ends {
+            v.push(Op::ClearCol(j));
+            v.push(Op::SetCol(j, vec![r - 1]));
+            v.push(Op::InsertCol(j, (0..r).collect()));
+            for i in 0..r {
+                v.push(Op::Insert(i, j));
+                v.push(Op::Remove(i, j));
+                v.push(Op::Toggle(i, j));
+            }
+        }
+    }
+    v
+}
+
+fn menu_for(r: usize, c: usize, long: bool) -> Vec<Op> {
+    if long {
+        ops_long(r, c)
+    } else {
+        ops(r, c)
+    }
+}
+
 fn apply_sut(h: &mut SparseMatrix, op: &Op) {
     match op {
         Op::Insert(i, j) => h.insert(*i, *j),
@@ -192,8 +255,8 @@ struct St {
     hist: Vec<usize>,
 }
 
-fn explore(r: usize, c: usize, cap_states: usize, acc: &mut Acc) -> (u64, u64, usize, bool) {
-    let menu = ops(r, c);
+fn explore(r: usize, c: usize, long: bool, max_depth: usize, cap_states: usize, acc: &mut Acc) -> (u64, u64, usize, bool) {
+    let menu = menu_for(r, c, long);
     let mut seen: HashSet<Key> = HashSet::new();
     let h0 = SparseMatrix::new(r, c);
     seen.insert(key_of(&h0));
@@ -203,6 +266,10 @@ fn explore(r: usize, c: usize, cap_states: usize, acc: &mut Acc) -> (u64, u64, u
     let mut depth = 0usize;
     let mut closed = true;
     while !frontier.is_empty() {
+        if depth >= max_depth {
+            closed = false;
+            break;
+        }
         depth += 1;
         let results: Vec<(Vec<(Key, St)>, Acc)> = frontier
             .par_iter()
@@ -216,7 +283,7 @@ fn explore(r: usize, c: usize, cap_states: usize, acc: &mut Acc) -> (u64, u64, u
                     let mut hist = st.hist.clone();
                     hist.push(oi);
                     let key = format!("sparse:{}x{}:{:?}", r, c, hist.iter().map(|&i| format!("{:?}", menu[i])).collect::<Vec<_>>());
-                    let replay = json!({"kind": "history", "r": r, "c": c, "ops": hist});
+                    let replay = json!({"kind": "history", "r": r, "c": c, "long_menu": long, "ops": hist});
                     if let Err(e) = guard(|| apply_sut(&mut h, op)) {
                         a.violate(key, format!("{:?} panicked: {}", op, e), replay);
                         continue;
@@ -275,7 +342,7 @@ fn explore(r: usize, c: usize, cap_states: usize, acc: &mut Acc) -> (u64, u64, u
 fn replay_element(v: &Value, acc: &mut Acc) {
     let r = v["r"].as_u64().unwrap() as usize;
     let c = v["c"].as_u64().unwrap() as usize;
-    let menu = ops(r, c);
+    let menu = menu_for(r, c, v["long_menu"].as_bool().unwrap_or(false));
     let mut h = SparseMatrix::new(r, c);
     let mut m = Model::new();
     let hist: Vec<usize> = v["ops"].as_array().unwrap().iter().map(|x| x.as_u64().unwrap() as usize).collect();
@@ -324,13 +391,24 @@ pub fn run(run: &Run) -> i32 {
         }
         let mut per_shape = Vec::new();
         for (r, c) in shapes {
-            let (s, t, d, closed) = explore(r, c, cap, &mut acc);
+            let (s, t, d, closed) = explore(r, c, false, usize::MAX, cap, &mut acc);
             graph.0 += s;
             graph.1 += t;
             graph.2 += t;
             all_closed &= closed;
             per_shape.push(json!({"shape": [r, c], "states": s, "transitions": t, "depth": d, "closed": closed, "ops": ops(r, c).len()}));
         }
+        // long shapes: lists of 9-10 indices; every history up to a stated depth (no closure claim)
+        let long_depth = if run.thorough() { 5 } else { 4 };
+        let mut per_long = Vec::new();
+        for (r, c) in [(10, 1), (1, 10), (9, 2), (2, 9)] {
+            let (s, t, d, _) = explore(r, c, true, long_depth, usize::MAX, &mut acc);
+            graph.0 += s;
+            graph.1 += t;
+            graph.2 += t;
+            per_long.push(json!({"shape": [r, c], "states": s, "transitions": t, "depth_bound_completed": d, "ops": ops_long(r, c).len()}));
+        }
+        extra.insert("long_shapes_depth_bounded".into(), Value::Array(per_long));
         extra.insert("per_shape".into(), Value::Array(per_shape));
     }
     extra.insert("closure_reached_everywhere".into(), json!(all_closed));
@@ -338,11 +416,11 @@ pub fn run(run: &Run) -> i32 {
         run,
         acc,
         Coverage {
-            rule: "explicit-state BFS from the empty matrix of each listed shape; transition = one real call of insert/remove/toggle on every position, clear_row/clear_col on every index, insert_row/set_row/insert_col/set_col with every index list of length <= 2 (repeats and both orders included) plus the full ascending/descending list; state key = both ordered adjacency lists (complete object contents, so merged states have identical futures); search runs until no new state appears (closure) unless the state cap is hit (then reported). Every transition is executed on the implementation, so traces_validated_against_impl = transitions. Non-trivial = transition taken from a non-empty matrix.".into(),
+            rule: "explicit-state BFS from the empty matrix of each listed shape; transition = one real call of insert/remove/toggle on every position, clear_row/clear_col on every index, insert_row/set_row/insert_col/set_col with every index list of length <= 2 (repeats and both orders included) plus the full ascending/descending list; state key = both ordered adjacency lists (complete object contents, so merged states have identical futures); search runs until no new state appears (closure) unless the state cap is hit (then reported). Every transition is executed on the implementation, so traces_validated_against_impl = transitions. In addition the long shapes 10x1, 1x10, 9x2, 2x9 with a restricted menu (bulk operations with lists of 9-10 indices in ascending / descending / partial / repeating order, single-position edits at the ends) are explored for every history up to depth 4 (5 thorough); that part is depth-bounded, not closed. Non-trivial = transition taken from a non-empty matrix.".into(),
             exhaustive: all_closed,
             extra,
             graph: Some(graph),
-            assumptions: vec!["shapes beyond those listed are not explored; histories of any length over the op menu are covered for shapes whose search closed".into()],
+            assumptions: vec!["shapes beyond those listed are not explored; histories of any length over the op menu are covered for the small shapes whose search closed, histories up to the stated depth for the long shapes".into()],
         },
     )
 }
